@@ -65,12 +65,17 @@ CHECKS = {
                      "each of the 89 fields reads back as in the source (heuristic mode under the property's precondition, strip -> 0) and that bytes "
                      "4096-7695 are the SEG-Y file header. Bounded model checking.",
                 design='DESIGN.md 7/C04'),
-    'C05': dict(text="make_header / _parse_coordinates / gen_coord_list run on symbolic axis origins (any int32), enumerated non-zero steps incl. "
-                     "negative and unequal ones, symbolic whole-millisecond start time and interval; z3 shows count and k-th value of each axis, trace "
-                     "count and structured flag equal the source's. Non-integral millisecond intervals need binary64 reasoning and are outside "
-                     "(see level_note). Bounded model checking.",
-                design='DESIGN.md 7/C05',
-                note=NOTE_COMMON + " Outside this check: sample intervals that are not a whole number of milliseconds (float rounding of 1000.0*(s1-s0)); the evidence lists them as not encoded."),
+    'C05': dict(text="make_header / np_float_to_bytes_signed / _parse_coordinates / gen_coord_list run on symbolic axis origins (any int32), enumerated "
+                     "non-zero steps incl. negative and unequal ones, symbolic whole-millisecond start time and interval: z3 (Int) shows count and k-th "
+                     "value of each axis, trace count and structured flag equal the source's. Sample intervals of any whole number of microseconds go "
+                     "through binary64: the same real functions run on z3 Float64 terms (RNE, fp.to_sbv, roundToIntegral, numpy's arange length rule) and "
+                     "the obligations stored interval = source interval, stored start, axis length = sample count, k-th axis value within 1e-6 ms of "
+                     "t0 + k*interval are decided as QF_BVFP queries by z3 and the cvc5 binary per (interval range x start range x trace length) box; "
+                     "witnesses are replayed on the real converter and reader. Bounded model checking.",
+                design='DESIGN.md 7/C05 and 18',
+                note=NOTE_COMMON + " The binary64 obligations are claimed only inside the boxes listed in the evidence bounds (quick: all intervals 1..65535 us x start "
+                     "-2..2 ms x 3 samples, plus boxes with 2/7/100 samples, 4 intervals x all 65536 start times, one 2D file); other (interval, start, "
+                     "length) triples, non-whole-millisecond start times and the ZGY route are outside."),
     'C09': dict(text="2D route end to end on a symbolic 2D SEG-Y source: producer with edge replication, per-group / per-block compression, 2D header, "
                      "then the real 2D loaders: the sample read back at a symbolic (trace, sample) is the 2D ZFP cell of the edge-clamped source "
                      "samples; trace count, header of a symbolic trace and file header equal the source; volume-style refusals are C14's items. "
